@@ -238,7 +238,10 @@ Complete(C, t, v, sels, path, site) ==
        ELSE Res(NullV, <<ErrRec(path, "not_a_list", "")>>, <<>>)
   ELSE IF IsComposite(C.U, t.n)
   THEN IF v.k = "node"
-       THEN LET r == ExecSels(C, v.v, sels, path) IN Res(V("obj", r.val), r.errs, r.calls)
+       THEN \* an object that is no member of the union the position declares is a failure of that position: null, one error (C06)
+            IF KindOf(C.U, t.n) = "UNION" /\ C.U.nodeType[v.v] \notin Range(C.U.types[t.n].members)
+            THEN Res(NullV, <<ErrRec(path, "not_a_member", C.U.nodeType[v.v])>>, <<>>)
+            ELSE LET r == ExecSels(C, v.v, sels, path) IN Res(V("obj", r.val), r.errs, r.calls)
        ELSE Res(NullV, <<ErrRec(path, "not_an_object", "")>>, <<>>)
   \* leaf: output coercion can fail (C06: null at that position plus one error addressing it).  The universes of this family
   \* hold well-typed leaves except where they say otherwise: a word where a number or a boolean is declared (C05 has the full table)
@@ -297,6 +300,8 @@ Response(U, doc, opName, given, dv) ==
      ELSE IF i = 0 THEN [hasData |-> FALSE, data |-> NullV, errs |-> <<ErrRec(<<>>, "no_operation", opName)>>, calls |-> <<>>]
      \* an operation of a kind the schema has no root type for
      ELSE IF doc.ops[i].type \notin DOMAIN U.roots THEN [hasData |-> FALSE, data |-> NullV, errs |-> <<ErrRec(<<>>, "no_root", doc.ops[i].type)>>, calls |-> <<>>]
+     \* the application fails to hand out the operation root: the failure is at the root of the response (empty path), data is null (C06)
+     ELSE IF <<"$root", doc.ops[i].type>> \in U.nth THEN [hasData |-> FALSE, data |-> NullV, errs |-> <<ErrRec(<<>>, "resolver", "root")>>, calls |-> <<>>]
      ELSE LET op == doc.ops[i]
               C == [U |-> U, doc |-> doc, vars |-> VarVals(op, given), dv |-> dv]
               r == ExecSels(C, U.roots[op.type], op.sels, <<>>)
